@@ -39,8 +39,10 @@ VARIABLES mst, mban, mmd, mc, minc,      \* memory tier: state, eviction ban, me
           fb, obj, nobj, queue,          \* flusher.blobs (key -> object id, 0 = none), blob objects, queue
           w, cl,                         \* workers; the client currently inside a store call (store.mu)
           truth, nextc,                  \* what clients were told (history), content id allocator
-          defects, hist                  \* history only: as-built defect windows entered; action log for export
-vars  == <<mst, mban, mmd, mc, minc, dst, dmd, dc, fb, obj, nobj, queue, w, cl, truth, nextc, defects, hist>>
+          defects, hist,                 \* history only: as-built defect windows entered; action log for export
+          recent                         \* the last three logged actions (coverage goals refer to them)
+vars  == <<mst, mban, mmd, mc, minc, dst, dmd, dc, fb, obj, nobj, queue, w, cl, truth, nextc, defects, hist, recent>>
+view3 == <<mst, mban, mmd, mc, minc, dst, dmd, dc, fb, obj, nobj, queue, w, cl, truth, nextc, recent>>
 view2 == <<mst, mban, mmd, mc, minc, dst, dmd, dc, fb, obj, nobj, queue, w, cl, truth, nextc, defects>>
 view  == <<mst, mban, mmd, mc, minc, dst, dmd, dc, fb, obj, nobj, queue, w, cl, truth, nextc>>
 
@@ -53,9 +55,10 @@ Init == /\ mst = [k \in Keys |-> "absent"] /\ mban = [k \in Keys |-> FALSE]
         /\ fb = [k \in Keys |-> 0] /\ obj = [i \in 1..MaxObj |-> NoObj] /\ nobj = 0 /\ queue = <<>>
         /\ w = [x \in Workers |-> NoW] /\ cl = [pc |-> "idle", op |-> "none", k |-> "none", v |-> 0]
         /\ truth = [k \in Keys |-> [s |-> "none", c |-> 0, md |-> 0]] /\ nextc = 0
-        /\ defects = {} /\ hist = <<>>
+        /\ defects = {} /\ hist = <<>> /\ recent = <<>>
 
-Log(a, k, v) == hist' = Append(hist, [a |-> a, k |-> k, v |-> v])
+Log(a, k, v) == /\ hist' = Append(hist, [a |-> a, k |-> k, v |-> v])
+                /\ recent' = (IF Len(recent) < 3 THEN Append(recent, [a |-> a, v |-> v]) ELSE Append(Tail(recent), [a |-> a, v |-> v]))
 Tag(t, cond) == defects' = IF cond THEN defects \cup {t} ELSE defects
 UNCH_MEM  == UNCHANGED <<mst, mban, mmd, mc, minc>>
 UNCH_DISK == UNCHANGED <<dst, dmd, dc>>
@@ -163,10 +166,14 @@ SetMd3 ==
   /\ Done /\ UNCH_DISK /\ UNCHANGED <<mst, mmd, mc, minc, w, nextc>>
 
 \* memory pressure: some other tiered.Create (also under store.mu) makes memory.Store evict a complete, unbanned blob
+\* (an incomplete or eviction-banned blob is NOT evictable: the attempt then changes nothing - it is still a step,
+\* so that exported schedules also probe the ban protocol at moments when eviction must be refused)
 Pressure(k) ==
-  /\ Idle /\ mst[k] = "comp" /\ ~mban[k]
+  /\ Idle /\ mst[k] # "absent"
   /\ Log("Pressure", k, 0)
-  /\ mst' = [mst EXCEPT ![k] = "absent"] /\ mmd' = [mmd EXCEPT ![k] = 0] /\ mc' = [mc EXCEPT ![k] = 0]
+  /\ IF mst[k] = "comp" /\ ~mban[k]
+     THEN mst' = [mst EXCEPT ![k] = "absent"] /\ mmd' = [mmd EXCEPT ![k] = 0] /\ mc' = [mc EXCEPT ![k] = 0]
+     ELSE UNCHANGED <<mst, mmd, mc>>
   /\ UNCH_DISK /\ UNCH_FL /\ UNCHANGED <<mban, minc, w, truth, nextc, defects, cl>>
 
 ----------------------------------------------------------------------------
@@ -300,6 +307,26 @@ UntaggedOK == defects = {} => Inv
 OnlyF09aOK == (defects = {"F09a"}) => Inv
 \* every flush terminates: a worker that picked a blob goes back to idle
 FlushTerminates == \A x \in Workers : (w[x].pc # "idle") ~> (w[x].pc = "idle")
+
+----------------------------------------------------------------------------
+(* Coverage goals: each is a state predicate describing a schedule shape worth forcing on the real code; the
+   configs MC_Tiered_goal_*.cfg check its NEGATION as an invariant, so TLC's counterexample is the shortest
+   behaviour reaching it and is exported as a schedule like the as-built counterexamples.               *)
+LastIs(n, a) == Len(recent) >= n /\ recent[Len(recent) - n + 1].a = a
+\* a metadata deletion on a flushed, memory-resident blob followed at once by memory pressure, while disk still holds the old value
+GoalDelMdPressure == \E k \in Keys : /\ LastIs(1, "Pressure") /\ LastIs(2, "WNext") /\ LastIs(3, "SetMd3")
+                                       /\ recent[Len(recent) - 2].v = 0 /\ dmd[k] # 0 /\ dst[k] = "comp"
+\* the same with a metadata overwrite
+GoalSetMdPressure == \E k \in Keys : /\ LastIs(1, "Pressure") /\ LastIs(2, "WNext") /\ LastIs(3, "SetMd3")
+                                       /\ recent[Len(recent) - 2].v # 0 /\ dmd[k] # 0 /\ dmd[k] # mmd[k] /\ dst[k] = "comp"
+\* memory pressure while the data copy of the first flush is in progress
+GoalPressureDuringCopy == LastIs(1, "Pressure") /\ \E x \in Workers : w[x].pc = "copy"
+\* memory pressure between the metadata flush and the unmark
+GoalPressureBeforeUnmark == LastIs(1, "Pressure") /\ \E x \in Workers : w[x].pc = "unmark" /\ w[x].snap
+NoGoalDelMdPressure == ~GoalDelMdPressure
+NoGoalSetMdPressure == ~GoalSetMdPressure
+NoGoalPressureDuringCopy == ~GoalPressureDuringCopy
+NoGoalPressureBeforeUnmark == ~GoalPressureBeforeUnmark
 
 ----------------------------------------------------------------------------
 (* Behaviour export for the replayer (DESIGN 2.2 M2): in -simulate mode every behaviour that reaches
